@@ -370,7 +370,7 @@ class ProgGen:
             if ok and twin.size(self.tensors) <= MAX_ELEMS:
                 self.diagrams[new] = twin
                 self.owner[new] = client
-                self.hist[new] = ops
+                self.hist[new] = [list(o) for o in ops]   # the step keeps its own list (hist grows with later edges)
                 return {"i": i, "c": client, "op": "build", "d": new, "ops": ops}
             return {"i": i, "c": client, "op": "build", "d": new, "ops": ops, "doomed": True}
         if r < 0.38:
@@ -405,7 +405,8 @@ class ProgGen:
         # add_edge
         cands = list(dict.fromkeys(d.nodes[-4:] + self.tensor_cands(4)))
         if rng.random() < cfg["p_self_edge_new"]:
-            fresh = [t for t in self.tensor_cands(8) if t not in d.nodes and self.tensors[t].cov and self.tensors[t].con]
+            fresh = [t for t in self.tensor_cands(8) if t not in d.nodes and self.tensors[t].cov and self.tensors[t].con
+                     and max(d.size(self.tensors), 1) * self.tensors[t].arr.size ** 2 <= MAX_ELEMS]
             if fresh:
                 t = rng.choice(fresh)
                 del self.diagrams[d_id]
@@ -1043,7 +1044,8 @@ def run_c05_seed(seed: int, want_sample: bool = False) -> dict:
             res["faulted_digest"] = hist_digest(hist2) + hashlib.blake2b(
                 repr(plan.get("grants_realised")).encode(), digest_size=6).hexdigest()
             if plan["exec"] == "preempt":
-                res["hsig"] += hashlib.blake2b(repr(plan.get("grants_realised")).encode(), digest_size=6).hexdigest()
+                res["sched_sig"] = hashlib.blake2b(repr(plan.get("grants_realised")).encode(), digest_size=8).hexdigest()
+                res["hsig"] += res["sched_sig"][:12]
         if corrupted:
             stats["corrupted_runs"] += 1
             W.evict_caches(3)
